@@ -216,6 +216,9 @@ class Run:
         rec = dict(property=self.pid, divergence=d, flags=v.flags, grammar=g.text(), group=g.to_case(),
                    input=self.inputs[d["ii"] - 1], input_text=bytes(self.inputs[d["ii"] - 1]).decode(errors="replace"),
                    options=self.options[d["oi"] - 1], seed=self.seed, tier=self.tier, detail=d.get("detail", ""))
+        tc = getattr(self, "tcase", None) or {}
+        if tc.get("lower") not in (None, [[0, 0]]):
+            rec["lower"], rec["uclass"] = tc["lower"], tc.get("uclass", [[0]])
         h = hashlib.sha1(json.dumps(rec, sort_keys=True).encode()).hexdigest()[:10]
         path = os.path.join(rd, "%s_%s.json" % (d["df"], h))
         with open(path, "w") as f:
